@@ -55,6 +55,7 @@ type Stats struct {
 	Yields      int
 	GoStmts     int
 	MapRewrites int
+	Selects     int
 	// Unrewritten `range`/maps.Keys over maps named like node sets, by file:line.
 	Audit []string
 }
@@ -437,6 +438,9 @@ func (rw *rewriter) stmt(s ast.Stmt) []ast.Stmt {
 			body := rw.stmts(cc.Body)
 			cc.Body = append([]ast.Stmt{rw.yield(fmt.Sprintf("%s:case%d", site, i))}, body...)
 		}
+		if seq := rw.prioritySelect(v, site); seq != nil {
+			return seq
+		}
 		return []ast.Stmt{rw.yield(site), s}
 	}
 	return []ast.Stmt{s}
@@ -588,4 +592,167 @@ func (rw *rewriter) rewriteMaphash(f *ast.File) int {
 	rw.used = true
 	rw.st.MapRewrites += n
 	return n
+}
+
+// Functions that may appear in the communication clauses of a select that is
+// turned into a priority select (they are idempotent / side-effect free, so
+// evaluating them once per probe is harmless).
+var commCallOK = map[string]bool{"Done": true, "Signaled": true, "Stopped": true, "Stalled": true, "After": true,
+	"Active": true, "Signal": true, "Err": true}
+
+// prioritySelect removes the Go runtime's random choice among several ready
+// cases: the select becomes a sequence of non-blocking single-case probes (in
+// source order, or in reverse order when the scheduler says so) followed by the
+// original blocking select. Every body stays directly inside a select clause, so
+// break/continue/goto/return keep their meaning.
+func (rw *rewriter) prioritySelect(sel *ast.SelectStmt, site string) []ast.Stmt {
+	n := len(sel.Body.List)
+	if n < 2 {
+		return nil
+	}
+	hasDefault := false
+	ok := true
+	for _, c := range sel.Body.List {
+		cc := c.(*ast.CommClause)
+		if cc.Comm == nil {
+			hasDefault = true
+			continue
+		}
+		ast.Inspect(cc.Comm, func(x ast.Node) bool {
+			switch v := x.(type) {
+			case *ast.FuncLit:
+				ok = false
+			case *ast.CallExpr:
+				switch f := v.Fun.(type) {
+				case *ast.SelectorExpr:
+					if !commCallOK[f.Sel.Name] {
+						ok = false
+					}
+				case *ast.Ident:
+					ok = false
+				}
+			}
+			return true
+		})
+	}
+	if !ok {
+		rw.st.Audit = append(rw.st.Audit, "select left to the runtime at "+site)
+		return nil
+	}
+	// clone the (already rewritten) select through its printed form
+	clone := func() *ast.SelectStmt {
+		var buf bytes.Buffer
+		buf.WriteString("package p\nfunc _() {\n")
+		if err := format.Node(&buf, rw.fset, sel); err != nil {
+			return nil
+		}
+		buf.WriteString("\n}\n")
+		f, err := parser.ParseFile(token.NewFileSet(), "", buf.Bytes(), 0)
+		if err != nil {
+			return nil
+		}
+		st := f.Decls[0].(*ast.FuncDecl).Body.List[0].(*ast.SelectStmt)
+		clearPos(st)
+		return st
+	}
+	rw.tmp++
+	flag := fmt.Sprintf("__simsel%d", rw.tmp)
+	rot := fmt.Sprintf("__simrot%d", rw.tmp)
+	probe := func(i int) ast.Stmt {
+		c := clone()
+		if c == nil {
+			return nil
+		}
+		cc := c.Body.List[i].(*ast.CommClause)
+		set := &ast.AssignStmt{Lhs: []ast.Expr{ast.NewIdent(flag)}, Tok: token.ASSIGN, Rhs: []ast.Expr{ast.NewIdent("true")}}
+		cc.Body = append([]ast.Stmt{set}, cc.Body...)
+		def := &ast.CommClause{}
+		ps := &ast.SelectStmt{Body: &ast.BlockStmt{List: []ast.Stmt{cc, def}}}
+		return &ast.IfStmt{Cond: &ast.UnaryExpr{Op: token.NOT, X: ast.NewIdent(flag)}, Body: &ast.BlockStmt{List: []ast.Stmt{ps}}}
+	}
+	var order []int
+	for i, c := range sel.Body.List {
+		if c.(*ast.CommClause).Comm != nil {
+			order = append(order, i)
+		}
+	}
+	var fwd, rev []ast.Stmt
+	for _, i := range order {
+		p := probe(i)
+		if p == nil {
+			return nil
+		}
+		fwd = append(fwd, p)
+	}
+	for k := len(order) - 1; k >= 0; k-- {
+		p := probe(order[k])
+		if p == nil {
+			return nil
+		}
+		rev = append(rev, p)
+	}
+	rw.used = true
+	out := []ast.Stmt{
+		&ast.ExprStmt{X: call("Yield", strLit("sel:"+site))},
+		&ast.AssignStmt{Lhs: []ast.Expr{ast.NewIdent(flag)}, Tok: token.DEFINE, Rhs: []ast.Expr{ast.NewIdent("false")}},
+		&ast.AssignStmt{Lhs: []ast.Expr{ast.NewIdent(rot)}, Tok: token.DEFINE, Rhs: []ast.Expr{call("SelRot")}},
+		&ast.IfStmt{Cond: &ast.BinaryExpr{X: ast.NewIdent(rot), Op: token.EQL, Y: intLit(0)}, Body: &ast.BlockStmt{List: fwd}, Else: &ast.BlockStmt{List: rev}},
+	}
+	rw.st.Yields++
+	var last ast.Stmt
+	if hasDefault {
+		// non-blocking select: run the default body if no probe fired
+		var dbody []ast.Stmt
+		c := clone()
+		for _, cl := range c.Body.List {
+			if cc := cl.(*ast.CommClause); cc.Comm == nil {
+				dbody = cc.Body
+			}
+		}
+		last = &ast.IfStmt{Cond: &ast.UnaryExpr{Op: token.NOT, X: ast.NewIdent(flag)}, Body: &ast.BlockStmt{List: dbody}}
+	} else {
+		last = &ast.IfStmt{Cond: &ast.UnaryExpr{Op: token.NOT, X: ast.NewIdent(flag)}, Body: &ast.BlockStmt{List: []ast.Stmt{sel}}}
+	}
+	out = append(out, last)
+	rw.st.Selects++
+	return []ast.Stmt{&ast.BlockStmt{List: out}}
+}
+
+// clearPos zeroes positions of a re-parsed subtree (they belong to another
+// file set).
+func clearPos(n ast.Node) {
+	ast.Inspect(n, func(x ast.Node) bool {
+		switch v := x.(type) {
+		case *ast.Ident:
+			v.NamePos = 0
+		case *ast.BasicLit:
+			v.ValuePos = 0
+		case *ast.CallExpr:
+			v.Lparen, v.Rparen = 0, 0
+		case *ast.BlockStmt:
+			v.Lbrace, v.Rbrace = 0, 0
+		case *ast.SelectStmt:
+			v.Select = 0
+		case *ast.CommClause:
+			v.Case, v.Colon = 0, 0
+		case *ast.AssignStmt:
+			v.TokPos = 0
+		case *ast.UnaryExpr:
+			v.OpPos = 0
+		case *ast.SendStmt:
+			v.Arrow = 0
+		case *ast.ReturnStmt:
+			v.Return = 0
+		case *ast.BranchStmt:
+			v.TokPos = 0
+		case *ast.IfStmt:
+			v.If = 0
+		case *ast.CompositeLit:
+			v.Lbrace, v.Rbrace = 0, 0
+		case *ast.KeyValueExpr:
+			v.Colon = 0
+		case *ast.ExprStmt:
+		}
+		return true
+	})
 }
